@@ -14,7 +14,7 @@ use flac_codec::metadata::{
 use serde_json::{json, Value};
 use std::num::NonZero;
 
-pub const RULE: &str = "(1) STREAMINFO: full product min/max block size {0,16,65535}² × min/max frame size {None,1,2^24-1}² × rate {0,1,2^20-1} × channels 1..8 × depth 1..32 × total {None,1,2^36-1} × md5 {None,Some} (373248 values) + all-zero md5 + 5 digests containing zero bytes + 8 out-of-range literals; (2) every other block value alone behind a STREAMINFO: padding {0,1,2^24-1,2^24}; application id {0,'riff',2^32-1} × data length {0,1,2^24-5,2^24-4}; every seek-point sequence of length 0..3 over a 6-symbol alphabet (incl. placeholders and the 2^64-1 sample offset) + tables of 932067 / 932068 points; comments: 3 vendor strings × every entry sequence of length 0..3 over 7 entries (empty, no '=', multi-byte UTF-8, NUL, 2^16-byte value) + a 2^24-byte entry; pictures: 21 types × 3 media types × 3 descriptions × 3 dimension tuples × data length {0,1,70000} + Picture::new over PNG/JPEG/GIF for every type + 2^24-byte data; cue sheets through Cuesheet::parse and through the public variants/constructors: CD-DA tracks {1,2,99,100} × indices {1,2,99,100,101} × INDEX 00 yes/no × catalog {none,13} × 5 ISRC forms × pre-emphasis (× non-audio × lead-in {0,88200,2^64-1} for the constructor path), non-CD-DA tracks {1,2,254,255} × indices {1,2,255,256,257} × INDEX 00 × catalog {0,13,128,129} × 5 ISRC forms × pre-emphasis (× non-audio); (3) every ordered pair of 13 representative blocks (all 6×6 kind pairs) as a slice and through BlockList::insert; (4) invalid lists (no/late/duplicate STREAMINFO, two seek tables, two comments, two PNG icons, two general icons, oversize blocks in every position); each written list is checked by an independent header walk (types, last flag, length fields, total), bytes()/total_size() against a field-length model, BlockList::read, read_blocks, read_info and read_block::<T> for all 7 T against the typed originals, and by the converse read→write→read; (5) converse on foreign bytes: 10 small sections × every single-byte substitution (thorough: + every pair of positions × 25 value pairs), every accepted one (by BlockList::read and by the block-by-block read_blocks) is written again and re-read; plus hand-assembled sequences the writer refuses to produce (every block kind duplicated, adjacent and separated; STREAMINFO not first): whatever a reader accepts must be writable again";
+pub const RULE: &str = "(1) STREAMINFO: full product min/max block size {0,16,65535}² × min/max frame size {None,1,2^24-1}² × rate {0,1,2^20-1} × channels 1..8 × depth 1..32 × total {None,1,2^36-1} × md5 {None,Some} (373248 values) + all-zero md5 + 5 digests containing zero bytes + 8 out-of-range literals; (2) every other block value alone behind a STREAMINFO: padding {0,1,2^24-1,2^24}; application id {0,'riff',2^32-1} × data length {0,1,2^24-5,2^24-4}; every seek-point sequence of length 0..3 over a 6-symbol alphabet (incl. placeholders and the 2^64-1 sample offset) + tables of 932067 / 932068 points; comments: 3 vendor strings × every entry sequence of length 0..3 over 7 entries (empty, no '=', multi-byte UTF-8, NUL, 2^16-byte value) + a 2^24-byte entry; pictures: 21 types × 3 media types × 3 descriptions × 3 dimension tuples × data length {0,1,70000} + Picture::new over PNG/JPEG/GIF for every type + 2^24-byte data; cue sheets through Cuesheet::parse and through the public variants/constructors: CD-DA tracks {1,2,99,100} × indices {1,2,99,100,101} × INDEX 00 yes/no × catalog {none,13} × 5 ISRC forms × pre-emphasis (× non-audio × lead-in {0,88200,2^64-1} for the constructor path), non-CD-DA tracks {1,2,254,255} × indices {1,2,255,256,257} × INDEX 00 × catalog {0,13,128,129} × 5 ISRC forms × pre-emphasis (× non-audio), plus constructor-built sheets whose first track number / first track offset / first index offset breaks the ordering rules; (3) every ordered pair of 13 representative blocks (all 6×6 kind pairs) as a slice and through BlockList::insert; (4) invalid lists (no/late/duplicate STREAMINFO, two seek tables, two comments, two PNG icons, two general icons, oversize blocks in every position); each written list is checked by an independent header walk (types, last flag, length fields, total), bytes()/total_size() against a field-length model, BlockList::read, read_blocks, read_info and read_block::<T> for all 7 T against the typed originals, and by the converse read→write→read; (5) converse on foreign bytes: 10 small sections × every single-byte substitution (thorough: + every pair of positions × 25 value pairs), every accepted one (by BlockList::read and by the block-by-block read_blocks) is written again and re-read; plus hand-assembled sequences the writer refuses to produce (every block kind duplicated, adjacent and separated; STREAMINFO not first): whatever a reader accepts must be writable again";
 pub const ASSUMPTIONS: &[&str] = &[
     "field values are taken from boundary menus (listed in the rule); strings/binary payloads use fixed fill patterns",
     "combination lists are limited to pairs of optional blocks behind one STREAMINFO",
@@ -119,6 +119,9 @@ struct CueSpec {
     pre: bool,
     non_audio: bool,
     lead_in: u64,
+    /// constructor path only: 0 = well-formed; 1 = first track numbered 2; 2 = first track not at offset 0;
+    /// 3 = every track's first index point not at offset 0 (all later elements stay correctly adjacent)
+    first: u8,
 }
 impl CueSpec {
     fn from(s: &Value) -> Self {
@@ -133,10 +136,11 @@ impl CueSpec {
             pre: s["pre"].as_bool().unwrap_or(false),
             non_audio: s["non_audio"].as_bool().unwrap_or(false),
             lead_in: u(&s["lead_in"]),
+            first: u(&s["first"]) as u8,
         }
     }
     fn json(&self) -> Value {
-        json!({"t":"cue","via": if self.parse {"parse"} else {"ctor"},"cdda":self.cdda,"tracks":self.tracks,"k":self.k,"idx0":self.idx0,"catalog":self.catalog,"isrc":self.isrc,"pre":self.pre,"non_audio":self.non_audio,"lead_in":self.lead_in})
+        json!({"t":"cue","via": if self.parse {"parse"} else {"ctor"},"cdda":self.cdda,"tracks":self.tracks,"k":self.k,"idx0":self.idx0,"catalog":self.catalog,"isrc":self.isrc,"pre":self.pre,"non_audio":self.non_audio,"lead_in":self.lead_in,"first":self.first})
     }
     fn total(&self) -> u64 {
         if self.cdda {
@@ -189,11 +193,11 @@ impl CueSpec {
             for t in 0..self.tracks {
                 let mut pts = Vec::with_capacity(self.k);
                 for i in 0..self.k {
-                    pts.push(Index { number: self.number(i), offset: off(i)? });
+                    pts.push(Index { number: self.number(i), offset: off(i + (self.first == 3) as usize)? });
                 }
                 let c: Contiguous<100, Index<CDDAOffset>> = pts.try_into().map_err(|_| "indices:NonContiguous")?;
                 let iv: IndexVec<100, CDDAOffset> = c.try_into().map_err(|e| format!("indexvec:{e:?}"))?;
-                tracks.push(TrackCDDA { offset: off(t * self.k)?, number: NonZero::new((t + 1) as u8).ok_or("track-number")?, isrc: isrc()?, non_audio: self.non_audio, pre_emphasis: self.pre, index_points: iv });
+                tracks.push(TrackCDDA { offset: off(t * self.k + (self.first == 2) as usize)?, number: NonZero::new((t + 1 + (self.first == 1) as usize) as u8).ok_or("track-number")?, isrc: isrc()?, non_audio: self.non_audio, pre_emphasis: self.pre, index_points: iv });
             }
             let tracks: Contiguous<99, TrackCDDA> = tracks.try_into().map_err(|_| "tracks:NonContiguous")?;
             let lead_out = LeadOutCDDA::new(tracks.last(), CDDAOffset::try_from(self.total()).map_err(|_| "cdda-offset")?).map_err(|e| format!("leadout:{e:?}"))?;
@@ -206,10 +210,10 @@ impl CueSpec {
         } else {
             let mut tracks: Vec<TrackNonCDDA> = Vec::with_capacity(self.tracks);
             for t in 0..self.tracks {
-                let pts: Vec<Index<u64>> = (0..self.k).map(|i| Index { number: self.number(i), offset: i as u64 * 3 }).collect();
+                let pts: Vec<Index<u64>> = (0..self.k).map(|i| Index { number: self.number(i), offset: (i + (self.first == 3) as usize) as u64 * 3 }).collect();
                 let c: Contiguous<256, Index<u64>> = pts.try_into().map_err(|_| "indices:NonContiguous")?;
                 let iv: IndexVec<256, u64> = c.try_into().map_err(|e| format!("indexvec:{e:?}"))?;
-                tracks.push(TrackNonCDDA { offset: (t * self.k * 3) as u64, number: NonZero::new((t + 1) as u8).ok_or("track-number")?, isrc: isrc()?, non_audio: self.non_audio, pre_emphasis: self.pre, index_points: iv });
+                tracks.push(TrackNonCDDA { offset: ((t * self.k + (self.first == 2) as usize) * 3) as u64, number: NonZero::new((t + 1 + (self.first == 1) as usize) as u8).ok_or("track-number")?, isrc: isrc()?, non_audio: self.non_audio, pre_emphasis: self.pre, index_points: iv });
             }
             let tracks: Contiguous<254, TrackNonCDDA> = tracks.try_into().map_err(|_| "tracks:NonContiguous")?;
             let lead_out = LeadOutNonCDDA::new(tracks.last(), self.total()).map_err(|e| format!("leadout:{e:?}"))?;
@@ -919,12 +923,24 @@ fn cue_specs() -> Vec<CueSpec> {
                                     let lis: &[u64] = if parse || !cdda { &[88200] } else { &[0, 88200, u64::MAX] };
                                     for &non_audio in nas {
                                         for &lead_in in lis {
-                                            v.push(CueSpec { parse, cdda, tracks: t, k, idx0, catalog, isrc, pre, non_audio, lead_in: if cdda { lead_in } else { 0 } });
+                                            v.push(CueSpec { parse, cdda, tracks: t, k, idx0, catalog, isrc, pre, non_audio, lead_in: if cdda { lead_in } else { 0 }, first: 0 });
                                         }
                                     }
                                 }
                             }
                         }
+                    }
+                }
+            }
+        }
+    }
+    // constructor path: lists whose FIRST element breaks the ordering rules while the rest is correctly adjacent
+    for cdda in [true, false] {
+        for t in [1usize, 2, 3] {
+            for k in [1usize, 2, 3] {
+                for idx0 in [false, true] {
+                    for first in 1..=3u8 {
+                        v.push(CueSpec { parse: false, cdda, tracks: t, k, idx0, catalog: if cdda { 13 } else { 0 }, isrc: 1, pre: false, non_audio: false, lead_in: if cdda { 88200 } else { 0 }, first });
                     }
                 }
             }
@@ -989,7 +1005,7 @@ fn singles(ctx: &Ctx, acc: &mut Acc) {
 }
 
 fn representatives() -> Vec<Value> {
-    let cue = |cdda: bool| CueSpec { parse: false, cdda, tracks: 2, k: 2, idx0: true, catalog: 13, isrc: 1, pre: true, non_audio: false, lead_in: if cdda { 88200 } else { 0 } }.json();
+    let cue = |cdda: bool| CueSpec { parse: false, cdda, tracks: 2, k: 2, idx0: true, catalog: 13, isrc: 1, pre: true, non_audio: false, lead_in: if cdda { 88200 } else { 0 }, first: 0 }.json();
     let pic = |t: u64| json!({"t":"pic","ptype":t,"media":"image/png","desc":"d","w":32,"h":32,"depth":24,"colors":0,"len":9});
     vec![
         json!({"t":"pad","size":0}),
@@ -1086,7 +1102,7 @@ fn invalid(ctx: &Ctx, acc: &mut Acc) {
 // ---- converse over foreign bytes
 
 fn converse_bases() -> Vec<(&'static str, Vec<Value>)> {
-    let cue = |cdda: bool| CueSpec { parse: false, cdda, tracks: if cdda { 1 } else { 2 }, k: 2, idx0: true, catalog: 13, isrc: 1, pre: true, non_audio: true, lead_in: if cdda { 88200 } else { 0 } }.json();
+    let cue = |cdda: bool| CueSpec { parse: false, cdda, tracks: if cdda { 1 } else { 2 }, k: 2, idx0: true, catalog: 13, isrc: 1, pre: true, non_audio: true, lead_in: if cdda { 88200 } else { 0 }, first: 0 }.json();
     let pic = |t: u64| json!({"t":"pic","ptype":t,"media":"image/png","desc":"d","w":32,"h":32,"depth":24,"colors":2,"len":4});
     vec![
         ("si", vec![std_si()]),
@@ -1217,7 +1233,7 @@ fn duplicates(ctx: &Ctx, acc: &mut Acc) {
         }
         v
     };
-    let cue = |cdda: bool| CueSpec { parse: false, cdda, tracks: if cdda { 1 } else { 2 }, k: 2, idx0: true, catalog: 13, isrc: 1, pre: true, non_audio: true, lead_in: if cdda { 88200 } else { 0 } }.json();
+    let cue = |cdda: bool| CueSpec { parse: false, cdda, tracks: if cdda { 1 } else { 2 }, k: 2, idx0: true, catalog: 13, isrc: 1, pre: true, non_audio: true, lead_in: if cdda { 88200 } else { 0 }, first: 0 }.json();
     let pic = |t: u64| json!({"t":"pic","ptype":t,"media":"image/png","desc":"d","w":32,"h":32,"depth":24,"colors":2,"len":4});
     let singles: Vec<(&str, Value)> = vec![
         ("si", std_si()),
